@@ -81,7 +81,7 @@ def run_shard(shard, ctx, tier):
 
 
 def h_value(h):
-    return float(h._h.reshape(-1)[0])
+    return float(h.prepare_for_torch().reshape(-1)[0])        # (public accessor of the wrapped LM state)
 
 
 def seq_score(w, h0, transcript, bonus, eos, memo):
@@ -226,7 +226,7 @@ def check_case(case, ctx):
                               f'{desc}; confidence() = {conf}, posterior of {top!r} = {post}', sub)
                 continue
             _, hwant = seq_score(w, h0, top, bonus, False, memo)
-            if hret._h.shape != hwant._h.shape or h_value(hret) != h_value(hwant):
+            if hret.prepare_for_torch().shape != hwant.prepare_for_torch().shape or h_value(hret) != h_value(hwant):
                 ctx.violation('returned-state-is-state-of-result', f'{K}/returned-state',
                               f'{desc}; returned LM state {h_value(hret)} but feeding {top!r} gives {h_value(hwant)}', sub)
                 continue
@@ -244,7 +244,7 @@ def check_case(case, ctx):
                               f'{desc}; best_hyp() = {best!r}, the maximal (tied) hypotheses are {tied}', sub)
                 continue
             _, hwant = seq_score(w, h0, best, bonus, False, memo)
-            if hret._h.shape != hwant._h.shape or h_value(hret) != h_value(hwant):
+            if hret.prepare_for_torch().shape != hwant.prepare_for_torch().shape or h_value(hret) != h_value(hwant):
                 ctx.violation('returned-state-is-state-of-result', f'{K}/returned-state-on-a-tie',
                               f'{desc}; {tied} tie; best_hyp() hands on {best!r} but the returned LM state {h_value(hret)} is not its state '
                               f'{h_value(hwant)}', sub)
